@@ -412,7 +412,26 @@ func runTracerPair(c *diffCase, name string, cfgJSON string, gas uint64) string 
 	ut.CaptureTxEnd(left2)
 	ur, uerr := ut.GetResult()
 	if fmt.Sprint(ferr) != fmt.Sprint(uerr) || !bytes.Equal(fr, ur) {
-		return fmt.Sprintf("differs:%s:fork=%.300s|upstream=%.300s", name, strings.ReplaceAll(string(fr), " ", ""), strings.ReplaceAll(string(ur), " ", ""))
+		// show the neighbourhood of the first difference (the outputs can be long; what differs is what identifies the case)
+		x, y := strings.ReplaceAll(string(fr), " ", ""), strings.ReplaceAll(string(ur), " ", "")
+		k := 0
+		for k < len(x) && k < len(y) && x[k] == y[k] {
+			k++
+		}
+		win := func(z string) string {
+			lo, hi := k-120, k+180
+			if lo < 0 {
+				lo = 0
+			}
+			if hi > len(z) {
+				hi = len(z)
+			}
+			if lo > hi {
+				lo = hi
+			}
+			return z[lo:hi]
+		}
+		return fmt.Sprintf("differs:%s:at_%d:fork=…%s|upstream=…%s", name, k, win(x), win(y))
 	}
 	return "same"
 }
